@@ -21,7 +21,9 @@ pub fn gen_case(rng: &mut Rng) -> Vec<String> {
         }
     };
     for _ in 0..n_ops {
-        match rng.below(12) {
+        match rng.below(14) {
+            12 => { let k = id(rng, &used); lines.push(format!("getmut {k} {}", rng.below(1000))); }
+            13 => lines.push("slots".into()),
             0..=4 => { let k = id(rng, &used); used.push(k); lines.push(format!("insert {k} {}", rng.below(1000))); }
             5..=6 => { let k = id(rng, &used); lines.push(format!("unset {k}")); }
             7 => { let k = id(rng, &used); lines.push(format!("get {k}")); }
@@ -48,6 +50,11 @@ pub fn run_case(lines: &[String]) -> Vec<String> {
             "new" => { m = Mapping::with_capacity(t[1].parse().unwrap()); out.push("ok".into()); }
             "insert" => { let p = m.insert(NameId(t[1].parse().unwrap()), t[2].parse().unwrap()); out.push(format!("prev {}", opt(p))); }
             "unset" => { let p = m.unset(NameId(t[1].parse().unwrap())); out.push(format!("prev {}", opt(p))); }
+            "getmut" => {
+                let p = match m.get_mut(NameId(t[1].parse().unwrap())) { Some(x) => { let old = *x; *x = t[2].parse().unwrap(); Some(old) } None => None };
+                out.push(format!("mut {}", opt(p)));
+            }
+            "slots" => { assert_eq!(m.slots(), m.capacity()); out.push(format!("slots {}", m.slots())); }
             "get" => { let p = m.get(NameId(t[1].parse().unwrap())).copied(); out.push(format!("val {}", opt(p))); }
             "len" => out.push(format!("len {} empty {}", m.len(), m.is_empty() as u8)),
             "iter" => { let mut s = String::from("iter"); for (k, v) in m.iter() { write!(s, " {}:{}", k.0, v).unwrap(); } out.push(s); }
